@@ -1188,7 +1188,8 @@ class Printer:
         return T().visit(copy.deepcopy(expr))
 
     def _never_none(self, e: ast.AST) -> bool:
-        """An element of an attribute annotated as a list / tuple of int (e.g. `self.stalled: list[int] | None`): never None."""
+        """An element of an attribute annotated as a list / tuple of int or of a package class (`self.stalled: list[int] | None`,
+        `self.stalled_pipeline_regs: list[PipelineRegister] | None`): never None -- the declared element type is not Optional."""
         m = self.model
         if m is None or not (isinstance(e, ast.Subscript) and isinstance(e.value, ast.Attribute) and not isinstance(e.slice, ast.Slice)):
             return False
@@ -1201,7 +1202,9 @@ class Printer:
                     if isinstance(n, ast.AnnAssign) and isinstance(n.target, ast.Attribute) and n.target.attr == attr:
                         anns.append(" ".join(ast.unparse(n.annotation).split()))
             import re as _re
-            memo[attr] = bool(anns) and all(_re.fullmatch(r"(Optional\[)?(list|tuple|List|Tuple)\[int(, (int|\.\.\.))*\]\]?( \| None)?", a) for a in anns)
+            classes = "|".join(sorted({c.name for c in m.classes.values()}, key=len, reverse=True))
+            memo[attr] = bool(anns) and all(_re.fullmatch(r"(Optional\[)?(list|tuple|List|Tuple)\[(int|" + classes + r")(, (int|\.\.\.|" + classes +
+                                                          r"))*\]\]?( \| None)?", a) for a in anns)
         return memo[attr]
 
     def _table_get(self, e: ast.AST) -> bool:
